@@ -33,8 +33,8 @@ def run(ck):
     g = S.g(rt)
     closes = [n for n in rt.calls(("QFileDevice::close", "QFile::close", "QIODevice::close")) if S.is_active_file(n.get("obj"))]
     renames = [n for n in rt.calls() if destructive_kind(n) == "rename"]
-    comp = [n for n in rt.calls(RP + "::compressFile")]
-    clean = [n for n in rt.calls(RP + "::removeOldFiles")]
+    comp = [n for n in S.calls_to(rt, "compressFile")]
+    clean = [n for n in S.calls_to(rt, "removeOldFiles")]
     opens = [n for n in rt.calls(("QFile::open", "QIODevice::open", "QFileDevice::open")) if S.is_active_file(n.get("obj"))]
     if len(renames) == 1 and not closes:
         ck.ob("C10-O1", sitestr(rt, renames[0]), False, "the active file is renamed without being closed (flushed) first", key="rotate|rename-before-close")
